@@ -134,6 +134,16 @@ func main() {
 				if err != nil {
 					panic(err)
 				}
+				// a successful decryption first (in-process history), then the non-matching lists
+				if l[0] != -1 {
+					for _, i := range l {
+						if kn := alpha[i].name; kn != "U" {
+							lab.DecryptBytes(file, armored, keys.ByName(kn).Id)
+						}
+					}
+				} else {
+					lab.DecryptBytes(file, armored, keys.Scrypt("correct horse", 1).Id)
+				}
 				for ii, il := range idLists {
 					var ids []idn
 					for _, k := range il {
@@ -200,6 +210,13 @@ func main() {
 				file, err := lab.Encrypt([]age.Recipient{keys.Scrypt(filePass, 1).Rcpt}, plain, false, nil)
 				if err != nil {
 					panic(err)
+				}
+				// histories: a successful decryption with the right passphrase must not help later wrong ones
+				// (in-process caches keyed by salt): right, then every near miss again below
+				if right, err := age.NewScryptIdentity(filePass); err == nil {
+					if res := lab.DecryptBytes(file, false, right); !res.OK() {
+						c.Fail("right-passphrase-rejected", fmt.Sprintf("f%d.right", fi), "the file's own passphrase does not decrypt it", nil)
+					}
 				}
 				cands := append([]string{}, misses...)
 				cands = append(cands, base)
